@@ -260,6 +260,8 @@ class Hole(AbsVal):
         if name in TRANSFORMS:
             # a transformed copy of the text: a different symbolic string
             return Hole(f"{self.name}.{name}({', '.join(map(repr, args))})", "derived")
+        if name in ("count", "find", "rfind", "index", "rindex"):
+            return Lin({("len", f"{self.name}.{name}({', '.join(map(repr, args))})"): 1}, 0 if name == "count" else -1)
         return NotImplemented
 
     def binop(self, it, op, other, reflected):
